@@ -9,11 +9,29 @@
 (*   "tri"    triangles (1,2,3) and, with four points, (2,3,4); no         *)
 (*            collinear triple - the element-level closest point is not    *)
 (*            defined for degenerate triangles                             *)
-(* for every depth in Depths (-1 = automatic). The initial state prints    *)
+(* for every depth in Depths (-1 = automatic; the depths are printed once, *)
+(* by the initial state). The initial state prints                         *)
 (* the query grid shared by all cases: every point of QC^3 (inside, on and *)
 (* outside the bounds), ranges around every grid point, axis-parallel rays *)
 (* from every boundary grid point and diagonal rays from the corners.      *)
 (* The harness executes each case on the real octree; TraceSpatial judges. *)
+(*                                                                         *)
+(* Round 2: every case of a mesh kind (point, line, tri) is printed with   *)
+(* all its VARIANTS = index layout x attribute route. The element set is   *)
+(* the same in every variant; what changes is how the mesh stores it and   *)
+(* which entry point builds the tree:                                      *)
+(*   layouts  "id"   vertices in order (points and strips: implied indices,*)
+(*                   printed as an empty idx)                              *)
+(*            "rev"  vertices stored backwards, idx renumbered             *)
+(*            "gap"  a vertex nothing refers to stored first and last      *)
+(*   routes   <<"", F>>          Mesh.OctTree / OctTreeDepth, Position only*)
+(*            <<"", T>>          the same, a second float3 attribute exists*)
+(*            <<"Position", T>>  OctTreeWithAttributeAndDepth("Position")  *)
+(*            <<"Rest", T>>      .. on attribute Rest, Position = decoy    *)
+(*            <<"Rest", F>>      .. on a mesh without Position             *)
+(* The decoy is the congruent image p -> (p.z + 1, p.x, LMax+LMin - p.y):  *)
+(* non-degenerate wherever the geometry is, and in other planes.           *)
+(* checks/c16.py executes one variant (seeded choice) of every case.       *)
 (***************************************************************************)
 EXTENDS Integers, Sequences, FiniteSets, SequencesExt, TLC, Json
 
@@ -57,10 +75,32 @@ Idx(kind) ==
       [] OTHER -> [i \in 1..n |-> i - 1]
 
 AllDepths == Depths \cup (IF WithAuto THEN {-1} ELSE {})
-Cases == {[kind |-> k, verts |-> pts, idx |-> Idx(k), depth |-> d] : k \in {kk \in Kinds : Ok(kk)}, d \in AllDepths}
 
 LMin == CHOOSE x \in LC : \A y \in LC : x <= y
 LMax == CHOOSE x \in LC : \A y \in LC : x >= y
+
+\* ---- variants: index layout x attribute route (mesh kinds only) ----
+Far == <<LMax + 3, LMin - 2, LMax + 2>>
+Implied(kind) == kind \in {"point", "line"}
+LayVerts(lay) ==
+    CASE lay = "rev" -> [i \in 1..n |-> pts[n + 1 - i]]
+      [] lay = "gap" -> <<Far>> \o pts \o <<Far>>
+      [] OTHER -> pts
+LayIdx(kind, lay) ==
+    LET id == Idx(kind)
+    IN CASE lay = "rev" -> [i \in DOMAIN id |-> n - 1 - id[i]]
+         [] lay = "gap" -> [i \in DOMAIN id |-> id[i] + 1]
+         [] OTHER -> IF Implied(kind) THEN <<>> ELSE id
+Dec(p) == <<p[3] + 1, p[1], LMax + LMin - p[2]>>
+Layouts(kind) == IF kind = "box" THEN {"id"} ELSE {"id", "rev", "gap"}
+Routes(kind) == IF kind = "box" THEN {<<"", FALSE>>}
+                ELSE {<<"", FALSE>>, <<"", TRUE>>, <<"Position", TRUE>>, <<"Rest", TRUE>>, <<"Rest", FALSE>>}
+Variants(kind) ==
+    {[verts |-> LayVerts(lay), idx |-> IF kind = "box" THEN Idx(kind) ELSE LayIdx(kind, lay), lay |-> lay, attr |-> rt[1],
+      decoy |-> IF rt[2] THEN [i \in DOMAIN LayVerts(lay) |-> Dec(LayVerts(lay)[i])] ELSE <<>>] :
+        lay \in Layouts(kind), rt \in Routes(kind)}
+\* one record per kind; it stands for one case per depth of AllDepths (printed once, with the grid)
+Cases == {[kind |-> k, variants |-> SetToSeq(Variants(k))] : k \in {kk \in Kinds : Ok(kk)}}
 QMin == LMin - QMargin
 QC == {x \in QMin..(LMax + QMargin) : (x - QMin) % QStep = 0}
 QMax == CHOOSE x \in QC : \A y \in QC : x >= y
@@ -83,6 +123,6 @@ DiagRays ==
         d \in {<<1, 1, 0>>, <<1, 1, 1>>, <<-1, 1, 1>>, <<1, -1, 0>>, <<-1, -1, -1>>, <<2, 1, 0>>}}
 Grid == [qpts |-> SetToSeq(QP), ranges |-> SetToSeq(Ranges), rays |-> SetToSeq(AxisRays \cup InnerRays \cup DiagRays)]
 
-Emit == IF pts = <<>> THEN PrintT(ToJson([grid |-> Grid]))
+Emit == IF pts = <<>> THEN PrintT(ToJson([grid |-> Grid, depths |-> SetToSeq(AllDepths)]))
         ELSE Cases = {} \/ PrintT(ToJson([cases |-> SetToSeq(Cases)]))
 =============================================================================
